@@ -311,6 +311,29 @@ def bounded(b):
                 M, N, cells, _ = raster([(60, 0, 1, 1), (64, 1, 1, 1), (67, bts, 2, 1), (48, 0, bts, 1)], 2, False, False, -1, 0, False, False, None, False, False)
                 got = {(int(r), int(c)): int(res[r, c]) for r, c in zip(*np.nonzero(res))}
                 b.case("roll/object_inputs_show_every_part", res.shape == (M, N) and got == cells, case, "shape %r (expected %r) with two columns per beat of a 1/%d note" % (res.shape, (M, N), btype))
+    # parts with a history: a divisions change entered and undone at the same place; musical beats of the user's choice, reset, then the
+    # default ones asked for - the roll shows the part as it is now
+    def undone_divisions():
+        p_ = G.build_part("P0", 4, ts=((0, 4, 4),), notes=[("a", 0, 8, "C", None, 4, 1, 1), ("b", 8, 8, "E", None, 4, 1, 1), ("c", 16, 8, "G", None, 4, 1, 1), ("d", 24, 8, "C", None, 5, 1, 1)], measures=[(0, 16), (16, 32)])
+        p_.set_quarter_duration(16, 8)
+        p_.set_quarter_duration(16, 4)
+        return p_
+
+    def beats_reset():
+        p_ = G.build_part("P0", 4, ts=((0, 4, 4),), notes=[("a", 0, 8, "C", None, 4, 1, 1), ("b", 8, 8, "E", None, 4, 1, 1), ("c", 16, 8, "G", None, 4, 1, 1), ("d", 24, 8, "C", None, 5, 1, 1)], measures=[(0, 16), (16, 32)])
+        p_.use_musical_beat({"4/4": 2})
+        p_.use_notated_beat()
+        p_.use_musical_beat()
+        return p_
+    for hname, mkh in (("divisions_change_entered_and_undone_at_the_same_place", undone_divisions), ("user_beats_then_notated_then_default_musical_beats", beats_reset)):
+        for unit in ("beat", "quarter", "auto"):
+            case = {"input": "Part", "history": hname, "time_unit": unit}
+            ok, res = b.guard("roll/no_exception", case, lambda: compute_pianoroll(mkh(), time_unit=unit, time_div=2, remove_silence=False).toarray())
+            if ok:
+                # four half notes in 4/4: each lasts two quarters = two beats = four columns at two columns per beat
+                M, N, cells, _ = raster([(60, 0, 2, 1), (64, 2, 2, 1), (67, 4, 2, 1), (72, 6, 2, 1)], 2, False, False, -1, 0, False, False, None, False, False)
+                got = {(int(r), int(c)): int(res[r, c]) for r, c in zip(*np.nonzero(res))}
+                b.case("roll/object_inputs_show_every_part", res.shape == (M, N) and got == cells, case, "shape %r (expected %r): four half notes in 4/4 at two columns per beat" % (res.shape, (M, N)))
     # a performed part made from a note array with track AND channel columns: the drum channel is channel 9, whatever the track is called
     for rows in ([(60, 0.0, 1.0, 64, 9, 0), (36, 0.0, 1.0, 100, 2, 9), (62, 1.0, 1.0, 70, 9, 3)], [(60, 0.0, 1.0, 64, 0, 0), (36, 0.5, 1.0, 100, 1, 9), (62, 1.0, 1.0, 70, 9, 1)]):
         na = np.array([(p_, o_, du_, v_, tr_, ch_, "n%d" % k) for k, (p_, o_, du_, v_, tr_, ch_) in enumerate(rows)],
